@@ -29,7 +29,7 @@ func init() {
 		Rule: "one run = (value stream, reader script, terminal condition, target mode) drawn from the tape; non-trivial = the simulated reader split at least one value across two reads, or injected a zero-length read, data-with-error, or a terminal error/EOF before the end of the stream; distinct = distinct hash of (stream bytes, every (len(p), n, err) the reader returned, target mode)",
 		FaultKinds: []string{"split-inside-number", "split-inside-string", "split-inside-escape", "split-inside-rune", "split-inside-literal",
 			"split-in-whitespace", "split-at-structural", "zero-read", "data+eof", "data+err", "eof-inside-value", "eof-clean-early", "err-inside-value", "err-at-boundary",
-			"err-kind-unexpected-eof", "err-kind-custom", "err-kind-wrapped", "err-kind-wraps-eof", "long-run-of-zero-length-reads", "cut-right-after-number"},
+			"err-kind-unexpected-eof", "err-kind-custom", "err-kind-wrapped", "err-kind-wraps-eof", "long-run-of-zero-length-reads", "second-decoder-used-in-turns", "cut-right-after-number"},
 		ProbeNames: []string{"refills>1", "value-longer-than-first-read-batch", "whitespace-run>64KiB", "values-decoded", "stream>32KiB", "stream>64KiB", "number-ends-at-read-boundary", "batch-boundary-inside-number", "batch-boundary-inside-token", "batch-boundary-inside-whitespace", "terminal-rechecked", "buffered-after-terminal-checked", "parse-remainder-checked", "buffered-checked", "values-rechecked-after-buffer-refills"},
 		Real:       []string{"json.Decoder (readValue, Buffered, InputOffset), json.Parse, the whole json decode path, compiled from /repo's working tree"},
 		Model:      []string{"io.Reader (simio.Reader: scripted chunking, zero reads, data+err, terminal errors)", "reference: encoding/json.Decoder of the toolchain, fed the delivered bytes in a single read"},
@@ -246,6 +246,11 @@ func c11GenStream(r *core.Run, mode int, maxLen int) []byte {
 	}
 	return b
 }
+
+var (
+	c11SideStream = []byte(`[1,2] {"a":"b\n"} "x" 12.5 null`)
+	c11SideVals   = []any{[]any{1.0, 2.0}, map[string]any{"a": "b\n"}, "x", 12.5, nil}
+)
 
 type c11Span struct{ start, end int }
 
@@ -517,12 +522,52 @@ func c11Exec(r *core.Run, sc *c11Scenario) {
 	if mode == c11AnyNumber {
 		dec.UseNumber()
 	}
+	// accessors before the first Decode: nothing has been read, nothing is buffered
+	if r.Scenario != nil || t.Chance(1, 4) {
+		if off := dec.InputOffset(); off != 0 {
+			r.Fail("offset-window", "offset-before-first-decode", "InputOffset is %d before the first Decode", off)
+			return
+		}
+		if b, _ := io.ReadAll(dec.Buffered()); len(b) != 0 || rd.Off != 0 {
+			r.Fail("buffered-window", "buffered-before-first-decode", "before the first Decode Buffered holds %d bytes and the reader has handed out %d", len(b), rd.Off)
+			return
+		}
+	}
+	// a second Decoder of the caller's, used in turns with the first: each behaves
+	// as if it were alone
+	var side *json.Decoder
+	sideN := 0
+	if r.Scenario == nil && t.Chance(1, 5) {
+		side = json.NewDecoder(&simio.Reader{Data: c11SideStream, Cut: len(c11SideStream), Final: io.EOF, Tail: 1 + t.Intn(5)})
+		r.Fault("second-decoder-used-in-turns")
+	}
+	sideStep := func() bool {
+		if side == nil {
+			return true
+		}
+		var v any
+		err := side.Decode(&v)
+		if sideN < len(c11SideVals) {
+			if err != nil || !reflect.DeepEqual(v, c11SideVals[sideN]) {
+				r.Fail("value-mismatch", "second-decoder-disturbed", "a second Decoder used in turns with the first returned %v, %v for its value #%d, expected %v", show(v), err, sideN, show(c11SideVals[sideN]))
+				return false
+			}
+		} else if err != io.EOF {
+			r.Fail("terminal-error", "second-decoder-disturbed", "a second Decoder used in turns with the first returned %v, %v after its last value, expected io.EOF", show(v), err)
+			return false
+		}
+		sideN++
+		return true
+	}
 	prevOff := int64(0)
 	var got int
 	var gotVals []any
 	var termErr error
 	eofFinal := final == io.EOF
 	for {
+		if !sideStep() {
+			return
+		}
 		var v any
 		var err error
 		switch mode {
